@@ -1,6 +1,612 @@
-//! Monitor for C35 (see /verif/DESIGN.md §5 C35).
-use vcommon::Args;
+//! Monitor for C35 — "Stored names read back exactly as they were accepted".
+//!
+//! (a) library level: `gmsol_utils::fixed_str::{fixed_str_to_bytes, bytes_to_fixed_str}` (and the store
+//!     program's wrappers) for the capacities the programs use (32: store key, role name, token name,
+//!     executor role; 64: market name) plus tiny capacities (1, 2, 3: exhaustive over the alphabet):
+//!     every string of byte length 0..=cap+2 of the structured families (plain, NUL at every position,
+//!     multi-byte tail, spaces, all-NUL) and random strings over an alphabet with NUL, spaces and
+//!     2/3/4-byte UTF-8 characters. Oracle: accepted ⇒ reads back as the same string.
+//! (b) through the program: `enable_role` (+ grant / has_role / check_role / disable_role on the accepted
+//!     role), `initialize_market`, `push_to_token_map`, `push_to_token_map_synthetic` (read back through the
+//!     `token_name` instruction and `TokenConfig::name`), timelock `initialize_executor`
+//!     (`Executor::role_name`), and directly `RoleMetadata::new`, `Market::init`, `Store::init`
+//!     (`Store::key`). Oracle: accepted ⇒ the program's own accessor returns the same string, and an
+//!     accepted role can be granted, is reported as held, and can be disabled.
+use crate::world::{self, exchange::load, ix, six, user::in_runtime, World, STORE_PID};
+use anchor_lang::{prelude::Pubkey, system_program, AccountDeserialize};
+use gmsol_store::{
+    accounts as sa, instruction as si,
+    states::{Market, RoleMetadata, Seed, Store},
+};
+use gmsol_utils::{oracle::PriceProviderKind, token_config::TokenMapAccess, token_config::UpdateTokenConfigParams};
+use hostsvm::{key, token, Svm};
+use vcommon::{json, monitor::guard, monitor::run_shards, Args, Monitor, Rng};
 
-pub fn run(_args: &Args) -> Option<i32> {
-    None
+const ALPHABET: &[&str] = &["a", "B", "7", " ", "_", "/", "\0", "é", "ß", "€", "中", "😀"];
+
+fn class_of(s: &str, cap: usize) -> &'static str {
+    if s.as_bytes().contains(&0) {
+        "nul_in_name_not_round_tripped"
+    } else if s.len() == cap {
+        "full_length_name_unreadable"
+    } else {
+        "other_name_not_round_tripped"
+    }
+}
+
+fn shape_of(s: &str, cap: usize) -> String {
+    format!(
+        "len{}{}:nul={}:mb={}:sp={}",
+        if s.len() < cap { "<" } else if s.len() == cap { "=" } else { ">" },
+        if s.is_empty() { "(0)" } else { "" },
+        if s.as_bytes().contains(&0) { if s.ends_with('\0') { "trail" } else { "inner" } } else { "no" },
+        !s.is_ascii(),
+        s.contains(' ')
+    )
+}
+
+fn show(s: &str) -> String {
+    format!("{s:?} ({} bytes)", s.len())
+}
+
+/// A string of exactly `len` bytes: random characters, padded with `a`.
+fn random_name(rng: &mut Rng, len: usize, nul_den: u64) -> String {
+    let mut s = String::new();
+    let mut tries = 0;
+    while s.len() < len && tries < 4 * len + 8 {
+        tries += 1;
+        let c = *rng.pick(ALPHABET);
+        if c == "\0" && !rng.chance(1, nul_den) {
+            continue;
+        }
+        if s.len() + c.len() <= len {
+            s.push_str(c);
+        }
+    }
+    while s.len() < len {
+        s.push('a');
+    }
+    s
+}
+
+fn pick_len(rng: &mut Rng, cap: usize) -> usize {
+    if rng.chance(3, 10) {
+        (cap + rng.below(3) as usize).saturating_sub(1)
+    } else {
+        rng.below(cap as u64 + 3) as usize
+    }
+}
+
+/// The structured families for capacity `cap` (every byte length 0..=cap+2).
+fn structured(cap: usize, full_nul_positions: bool) -> Vec<String> {
+    let mut v = vec![];
+    for len in 0..=cap + 2 {
+        v.push("a".repeat(len));
+        v.push(" ".repeat(len));
+        v.push("\0".repeat(len));
+        if len >= 2 {
+            v.push(format!(" {}", "x".repeat(len - 1)));
+            v.push(format!("{} ", "x".repeat(len - 1)));
+        }
+        for tail in ["é", "€", "😀"] {
+            if len >= tail.len() {
+                v.push(format!("{}{}", "m".repeat(len - tail.len()), tail));
+            }
+        }
+        let positions: Vec<usize> = if full_nul_positions { (0..len).collect() } else { vec![0, len / 2, len.saturating_sub(1)] };
+        for p in positions {
+            if p < len {
+                let mut b = vec![b'n'; len];
+                b[p] = 0;
+                v.push(String::from_utf8(b).unwrap());
+            }
+        }
+    }
+    v.sort();
+    v.dedup();
+    v
+}
+
+/// Names used at instruction level: boundary lengths × families, plus random ones.
+fn instruction_names(cap: usize, rng: &mut Rng, n_random: usize, with_structured: bool) -> Vec<String> {
+    let mut v = vec![];
+    if with_structured {
+        let lens = [0usize, 1, 2, cap / 2, cap - 2, cap - 1, cap, cap + 1, cap + 2];
+        for s in structured(cap, false) {
+            if lens.contains(&s.len()) {
+                v.push(s);
+            }
+        }
+    }
+    for _ in 0..n_random {
+        let len = pick_len(rng, cap);
+        v.push(random_name(rng, len, 3));
+    }
+    v
+}
+
+// ------------------------------------------------------------------------------------------------
+// (a) library level
+
+fn lib_check<const N: usize>(m: &mut Monitor, s: &str, structured: bool) {
+    for (site, accepted, back) in [
+        {
+            let r = guard(|| gmsol_utils::fixed_str::fixed_str_to_bytes::<N>(s));
+            match r {
+                Ok(Ok(b)) => ("gmsol_utils::fixed_str", true, Some(gmsol_utils::fixed_str::bytes_to_fixed_str(&b).map(|x| x.to_string()).map_err(|e| format!("{e:?}")))),
+                Ok(Err(_)) => ("gmsol_utils::fixed_str", false, None),
+                Err(p) => ("gmsol_utils::fixed_str", false, Some(Err(format!("panic: {p}")))),
+            }
+        },
+        {
+            let r = guard(|| gmsol_store::utils::fixed_str::fixed_str_to_bytes::<N>(s));
+            match r {
+                Ok(Ok(b)) => (
+                    "gmsol_store::utils::fixed_str",
+                    true,
+                    Some(gmsol_store::utils::fixed_str::bytes_to_fixed_str(&b).map(|x| x.to_string()).map_err(|e| format!("{e:?}").chars().take(120).collect())),
+                ),
+                Ok(Err(_)) => ("gmsol_store::utils::fixed_str", false, None),
+                Err(p) => ("gmsol_store::utils::fixed_str", false, Some(Err(format!("panic: {p}")))),
+            }
+        },
+    ] {
+        m.eval();
+        if !accepted {
+            m.count(&format!("lib_cap{N}_rejected"));
+            if s.len() <= N {
+                m.count("lib_rejected_although_it_fits");
+            }
+            if let Some(Err(p)) = back {
+                m.count("lib_panics");
+                let _ = p;
+            }
+            continue;
+        }
+        m.count(&format!("lib_cap{N}_accepted"));
+        if structured {
+            m.nontrivial(format!("lib:{site}:{N}:{s}").as_bytes());
+        } else {
+            m.nontrivial(format!("lib:{site}:{N}:{}:{}", s.len(), shape_of(s, N)).as_bytes());
+        }
+        let back = back.unwrap();
+        if back.as_deref() == Ok(s) {
+            m.count("lib_round_trips");
+        } else {
+            m.count(&format!("lib_cap{N}_not_round_tripped[{}]", class_of(s, N)));
+            m.violation(
+                &format!("C35:fixed_str:{}", class_of(s, N)),
+                json!({"site": site, "capacity": N, "input": show(s), "input_bytes": s.as_bytes(),
+                    "fixed_str_to_bytes": "Ok", "bytes_to_fixed_str": format!("{back:?}")}),
+            );
+        }
+    }
+}
+
+fn lib_check_cap(m: &mut Monitor, cap: usize, s: &str, structured: bool) {
+    match cap {
+        1 => lib_check::<1>(m, s, structured),
+        2 => lib_check::<2>(m, s, structured),
+        3 => lib_check::<3>(m, s, structured),
+        8 => lib_check::<8>(m, s, structured),
+        32 => lib_check::<32>(m, s, structured),
+        64 => lib_check::<64>(m, s, structured),
+        _ => unreachable!(),
+    }
+}
+
+/// All strings over `ALPHABET` of byte length ≤ `max_bytes`.
+fn exhaustive(max_bytes: usize) -> Vec<String> {
+    let mut out = vec![String::new()];
+    let mut frontier = vec![String::new()];
+    while let Some(s) = frontier.pop() {
+        for c in ALPHABET {
+            if s.len() + c.len() <= max_bytes {
+                let t = format!("{s}{c}");
+                out.push(t.clone());
+                frontier.push(t);
+            }
+        }
+    }
+    out
+}
+
+// ------------------------------------------------------------------------------------------------
+// (b) program level
+
+fn ok_str(r: &Result<String, String>, want: &str) -> bool {
+    r.as_deref() == Ok(want)
+}
+
+fn report(m: &mut Monitor, site: &str, cap: usize, name: &str, readbacks: Vec<(&str, Result<String, String>)>, usable: Option<(bool, vcommon::serde_json::Value)>) {
+    m.eval();
+    m.count(&format!("{site}_accepted"));
+    m.nontrivial(format!("{site}:{name}").as_bytes());
+    let all_back = readbacks.iter().all(|(_, r)| ok_str(r, name));
+    let rb = json!(readbacks.iter().map(|(k, r)| (k.to_string(), format!("{r:?}"))).collect::<std::collections::BTreeMap<_, _>>());
+    if !all_back {
+        m.count(&format!("{site}_not_read_back[{}]", class_of(name, cap)));
+        m.violation(
+            &format!("C35:{site}:{}", class_of(name, cap)),
+            json!({"instruction": site, "capacity": cap, "name": show(name), "name_bytes": name.as_bytes(), "accepted": true,
+                "accessors": rb, "usability": usable.as_ref().map(|u| u.1.clone())}),
+        );
+    } else {
+        m.count(&format!("{site}_read_back_ok"));
+        if let Some((false, detail)) = &usable {
+            m.violation(
+                &format!("C35:{site}:accepted_role_unusable"),
+                json!({"instruction": site, "name": show(name), "accessors": rb, "usability": detail}),
+            );
+        }
+    }
+    if let Some((true, _)) = usable {
+        m.count(&format!("{site}_role_usable"));
+    }
+    if m.wants_sample() && all_back && name.len() > 3 {
+        m.sample(json!({"site": site, "name": show(name), "accessors": rb}));
+    }
+}
+
+fn rejected(m: &mut Monitor, site: &str, cap: usize, name: &str, err: &str) {
+    m.eval();
+    m.count(&format!("{site}_rejected"));
+    if name.len() <= cap && !name.as_bytes().contains(&0) && name.len() < cap {
+        // A perfectly storable name was refused: not a property matter, but must be visible.
+        m.count(&format!("{site}_rejected_storable_name"));
+        if m.wants_sample() && site != "initialize" {
+            m.sample(json!({"site": site, "storable_name_rejected": show(name), "error": err}));
+        }
+    }
+}
+
+fn tx_err(e: &hostsvm::TxError) -> String {
+    match e.custom_code() {
+        Some(c) => format!("Custom({c})"),
+        None => format!("{e:?}").chars().take(100).collect(),
+    }
+}
+
+fn ret_bool(r: world::TxResult) -> Result<bool, String> {
+    match r {
+        Ok(mt) => match mt.return_data {
+            Some((_, d)) if d.len() == 1 => Ok(d[0] != 0),
+            o => Err(format!("no bool return data {o:?}")),
+        },
+        Err((e, _)) => Err(tx_err(&e)),
+    }
+}
+
+struct Bases {
+    /// Store initialised, no roles.
+    roles: Svm,
+    roles_admin: Pubkey,
+    roles_store: Pubkey,
+    /// Store + token map + tokens + vaults.
+    world: World,
+}
+
+fn bases() -> Bases {
+    let mut svm = world::new_svm();
+    let admin = key("c35-admin");
+    svm.airdrop(&admin, 10_000 * world::LAMPORTS);
+    let store = world::pda::find_store_address("", &STORE_PID).0;
+    svm.process(
+        &[six(
+            sa::Initialize { payer: admin, authority: None, receiver: None, holding: None, store, system_program: system_program::ID },
+            si::Initialize { key: String::new() },
+        )],
+        &[admin],
+    )
+    .map_err(|(e, _)| e)
+    .expect("initialize");
+    let mut w = World::bootstrap_store();
+    w.bootstrap_oracle();
+    w.add_token("BTC", 8, 2, true);
+    w.add_token("SOL", 9, 4, false);
+    w.add_token("USDC", 6, 6, false);
+    // Creates the SOL and USDC vaults as a side effect.
+    crate::c17::create_market(&mut w, 1, 1, 2, "base", true).expect("base market");
+    Bases { roles: svm, roles_admin: admin, roles_store: store, world: w }
+}
+
+fn role_case(m: &mut Monitor, b: &Bases, name: &str) {
+    // direct: RoleMetadata::new / name
+    match guard(|| RoleMetadata::new(name, 0)) {
+        Ok(Ok(md)) => {
+            let back = md.name().map(|s| s.to_string()).map_err(|e| format!("{e:?}").chars().take(100).collect());
+            report(m, "RoleMetadata::new", 32, name, vec![("RoleMetadata::name", back)], None);
+        }
+        Ok(Err(_)) => rejected(m, "RoleMetadata::new", 32, name, "Err"),
+        Err(p) => {
+            m.count("panics");
+            rejected(m, "RoleMetadata::new", 32, name, &p);
+        }
+    }
+    // instruction
+    let mut svm = b.roles.clone();
+    let (admin, store) = (b.roles_admin, b.roles_store);
+    let r = svm.process(&[six(sa::EnableRole { authority: admin, store }, si::EnableRole { role: name.to_string() })], &[admin]);
+    if let Err((e, _)) = &r {
+        rejected(m, "enable_role", 32, name, &tx_err(e));
+        return;
+    }
+    let Some(st) = load::<Store>(&svm, &store) else {
+        m.inconclusive("store unreadable");
+        return;
+    };
+    let names: Vec<Result<String, String>> =
+        st.role().roles().map(|r| r.map(|s| s.to_string()).map_err(|e| format!("{e:?}").chars().take(100).collect())).collect();
+    let back = if names.len() == 1 { names[0].clone() } else { Err(format!("{} roles stored", names.len())) };
+    // usability
+    let holder = key("c35-holder");
+    let grant = svm
+        .process(&[six(sa::GrantRole { authority: admin, store }, si::GrantRole { user: holder, role: name.to_string() })], &[admin])
+        .map(|_| ())
+        .map_err(|(e, _)| tx_err(&e));
+    let has = ret_bool(svm.process(&[six(sa::HasRole { store }, si::HasRole { authority: holder, role: name.to_string() })], &[]));
+    let check = ret_bool(svm.process(&[six(sa::CheckRole { authority: holder, store }, si::CheckRole { role: name.to_string() })], &[holder]));
+    let disable = svm
+        .process(&[six(sa::DisableRole { authority: admin, store }, si::DisableRole { role: name.to_string() })], &[admin])
+        .map(|_| ())
+        .map_err(|(e, _)| tx_err(&e));
+    let has_after = ret_bool(svm.process(&[six(sa::HasRole { store }, si::HasRole { authority: holder, role: name.to_string() })], &[]));
+    let disabled_in_store = load::<Store>(&svm, &store).map(|s| s.role().enabled_role_index(name).is_err());
+    let usable = grant.is_ok() && has == Ok(true) && check == Ok(true) && disable.is_ok() && has_after != Ok(true) && disabled_in_store == Some(true);
+    let detail = json!({"grant_role": format!("{grant:?}"), "has_role": format!("{has:?}"), "check_role": format!("{check:?}"),
+        "disable_role": format!("{disable:?}"), "has_role_after_disable": format!("{has_after:?}"), "reported_disabled": disabled_in_store});
+    report(m, "enable_role", 32, name, vec![("RoleMetadata::name (Store::role().roles())", back)], Some((usable, detail)));
+}
+
+fn market_case(m: &mut Monitor, b: &Bases, name: &str, pure: bool) {
+    let mut w = b.world.clone();
+    // direct
+    let store = w.store;
+    let r = in_runtime(&mut w.svm, || {
+        let mut mk = Box::new(Market::default());
+        mk.init(1, store, name, key("mt"), key("it"), key("lt"), key("st"), true)
+            .map(|_| mk.name().map(|s| s.to_string()).map_err(|e| format!("{e:?}").chars().take(100).collect::<String>()))
+            .map_err(|e| format!("{e:?}").chars().take(100).collect::<String>())
+    });
+    match r {
+        Ok(Ok(back)) => report(m, "Market::init", 64, name, vec![("Market::name", back)], None),
+        Ok(Err(e)) => rejected(m, "Market::init", 64, name, &e),
+        Err(p) => {
+            m.count("panics");
+            rejected(m, "Market::init", 64, name, &p);
+        }
+    }
+    // instruction
+    let (it, lt, st) = if pure { (0, 1, 1) } else { (0, 1, 2) };
+    match crate::c17::create_market(&mut w, it, lt, st, name, true) {
+        Ok(market) => match load::<Market>(&w.svm, &market) {
+            Some(mk) => {
+                let back = mk.name().map(|s| s.to_string()).map_err(|e| format!("{e:?}").chars().take(100).collect());
+                let desc = mk.description().map_err(|e| format!("{e:?}").chars().take(60).collect::<String>());
+                m.count(if desc.is_ok() { "market_description_ok" } else { "market_description_err" });
+                report(m, "initialize_market", 64, name, vec![("Market::name", back)], None);
+            }
+            None => m.inconclusive("market unreadable after initialize_market"),
+        },
+        Err(e) => rejected(m, "initialize_market", 64, name, &e),
+    }
+}
+
+fn token_case(m: &mut Monitor, b: &Bases, name: &str, synthetic: bool, n: u64) {
+    let mut w = b.world.clone();
+    let (keeper, store, token_map) = (w.keeper, w.store, w.token_map);
+    let mint = key(&format!("c35-mint-{n}"));
+    if !synthetic {
+        token::set_mint(&mut w.svm, mint, Some(key("mint-authority")), 7, 0);
+    }
+    let provider = PriceProviderKind::ChainlinkDataStreams;
+    let builder = UpdateTokenConfigParams::default()
+        .update_price_feed(&provider, key("c35-feed"), None)
+        .expect("feed")
+        .with_expected_provider(provider)
+        .with_precision(3);
+    let site = if synthetic { "push_to_token_map_synthetic" } else { "push_to_token_map" };
+    let r = if synthetic {
+        w.send(
+            &[six(
+                sa::PushToTokenMapSynthetic { authority: keeper, store, token_map, system_program: system_program::ID },
+                si::PushToTokenMapSynthetic { name: name.to_string(), token: mint, token_decimals: 7, builder, enable: true, new: true },
+            )],
+            &[keeper],
+        )
+    } else {
+        w.send(
+            &[six(
+                sa::PushToTokenMap { authority: keeper, store, token_map, token: mint, system_program: system_program::ID },
+                si::PushToTokenMap { name: name.to_string(), builder, enable: true, new: true },
+            )],
+            &[keeper],
+        )
+    };
+    if let Err((e, _)) = &r {
+        rejected(m, site, 32, name, &tx_err(e));
+        return;
+    }
+    // program's own read instruction
+    let via_ix = match w.send(&[six(sa::ReadTokenMap { token_map }, si::TokenName { token: mint })], &[]) {
+        Ok(mt) => match mt.return_data {
+            Some((_, d)) if d.len() >= 4 => {
+                let n = u32::from_le_bytes(d[..4].try_into().unwrap()) as usize;
+                if d.len() == 4 + n {
+                    String::from_utf8(d[4..].to_vec()).map_err(|e| format!("{e:?}"))
+                } else {
+                    Err("malformed return data".into())
+                }
+            }
+            o => Err(format!("no return data {o:?}")),
+        },
+        Err((e, _)) => Err(tx_err(&e)),
+    };
+    let mut backs = vec![("token_name instruction", via_ix)];
+    if let Some(a) = w.svm.get(&token_map) {
+        if let Ok(tm) = gmsol_store::states::TokenMap::try_deserialize(&mut &a.data[..]) {
+            if let Some(cfg) = tm.get(&mint) {
+                backs.push(("TokenConfig::name", cfg.name().map(|s| s.to_string()).map_err(|e| format!("{e:?}"))));
+            } else {
+                m.count("token_config_not_found_via_TokenMap_util");
+            }
+        }
+    }
+    report(m, site, 32, name, backs, None);
+}
+
+fn executor_case(m: &mut Monitor, b: &Bases, name: &str) {
+    let mut svm = b.roles.clone();
+    let payer = b.roles_admin;
+    let store = b.roles_store;
+    let mut seed = [0u8; 32];
+    let nb = name.as_bytes();
+    let n = nb.len().min(32);
+    seed[..n].copy_from_slice(&nb[..n]);
+    let pid = gmsol_timelock::ID;
+    let executor = Pubkey::find_program_address(&[gmsol_timelock::states::Executor::SEED, store.as_ref(), &seed], &pid).0;
+    let wallet = Pubkey::find_program_address(&[gmsol_timelock::states::Executor::WALLET_SEED, executor.as_ref()], &pid).0;
+    let r = svm.process(
+        &[ix(
+            pid,
+            gmsol_timelock::accounts::InitializeExecutor { payer, store, executor, wallet, system_program: system_program::ID },
+            gmsol_timelock::instruction::InitializeExecutor { role: name.to_string() },
+        )],
+        &[payer],
+    );
+    if let Err((e, _)) = &r {
+        rejected(m, "initialize_executor", 32, name, &tx_err(e));
+        return;
+    }
+    match load::<gmsol_timelock::states::Executor>(&svm, &executor) {
+        Some(ex) => {
+            let back = ex.role_name().map(|s| s.to_string()).map_err(|e| format!("{e:?}").chars().take(100).collect());
+            report(m, "initialize_executor", 32, name, vec![("Executor::role_name", back)], None);
+        }
+        None => m.inconclusive("executor unreadable after initialize_executor"),
+    }
+}
+
+fn store_case(m: &mut Monitor, b: &Bases, name: &str) {
+    // direct Store::init (the instruction only admits the empty key in this build)
+    let mut svm = b.roles.clone();
+    let r = in_runtime(&mut svm, || {
+        let mut st: Box<Store> = Box::new(bytemuck::Zeroable::zeroed());
+        let a = key("c35-auth");
+        st.init(a, name, 254, a, a)
+            .map(|_| st.key().map(|s| s.to_string()).map_err(|e| format!("{e:?}").chars().take(100).collect::<String>()))
+            .map_err(|e| format!("{e:?}").chars().take(100).collect::<String>())
+    });
+    match r {
+        Ok(Ok(back)) => report(m, "Store::init", 32, name, vec![("Store::key", back)], None),
+        Ok(Err(e)) => rejected(m, "Store::init", 32, name, &e),
+        Err(p) => {
+            m.count("panics");
+            rejected(m, "Store::init", 32, name, &p);
+        }
+    }
+    // instruction `initialize` on a fresh runtime
+    let mut svm = world::new_svm();
+    let admin = key("c35-admin2");
+    svm.airdrop(&admin, 1_000 * world::LAMPORTS);
+    let store = world::pda::find_store_address(name, &STORE_PID).0;
+    let r = svm.process(
+        &[six(
+            sa::Initialize { payer: admin, authority: None, receiver: None, holding: None, store, system_program: system_program::ID },
+            si::Initialize { key: name.to_string() },
+        )],
+        &[admin],
+    );
+    match r {
+        Ok(_) => match load::<Store>(&svm, &store) {
+            Some(st) => {
+                let back = st.key().map(|s| s.to_string()).map_err(|e| format!("{e:?}").chars().take(100).collect());
+                report(m, "initialize", 32, name, vec![("Store::key", back)], None);
+            }
+            None => m.inconclusive("store unreadable after initialize"),
+        },
+        Err((e, _)) => rejected(m, "initialize", 32, name, &tx_err(&e)),
+    }
+}
+
+pub fn run(args: &Args) -> Option<i32> {
+    let mut mon = Monitor::new(
+        args,
+        "cases: (a) strings of byte length 0..=cap+2 for cap in {1,2,3 exhaustive over a 12-character alphabet with NUL, \
+         space, 2/3/4-byte UTF-8; 8,32,64 structured families (plain, NUL at every position, multi-byte tail, spaces, \
+         all-NUL) + random} through fixed_str_to_bytes/bytes_to_fixed_str (gmsol-utils and the store wrappers); (b) names \
+         (boundary lengths × families + random) through enable_role(+grant/has_role/check_role/disable_role), \
+         initialize_market, push_to_token_map(_synthetic), initialize_executor, initialize, and directly RoleMetadata::new, \
+         Market::init, Store::init, read back with the program's accessors. non-trivial: the name was accepted (so the \
+         read-back rule applies); distinct = distinct (site, string) for structured/instruction cases and distinct (site, \
+         cap, length, content shape) for random library strings",
+    );
+    mon.assume("capacities used by the programs: 32 (store key, role, token, executor) and 64 (market); 1,2,3,8 are added to make exhaustive enumeration feasible");
+    mon.assume("the `initialize` instruction of this build only admits the empty store key (no `multi-store` feature); non-empty keys are exercised through Store::init directly");
+    let quiet = hostsvm::QuietStdout::new();
+    let shards = args.scale(32, 192);
+    let lib_random = args.scale(150_000, 2_000_000);
+    let ix_random = args.scale(60, 240) as usize;
+    let seed = args.seed;
+    run_shards(&mut mon, args.threads, shards, |shard, m| {
+        let mut rng = Rng::derive(seed, shard, 35);
+        // ---------------- (a)
+        if shard == 0 {
+            for cap in [1usize, 2, 3] {
+                for s in exhaustive(cap + 2) {
+                    lib_check_cap(m, cap, &s, true);
+                    m.count("lib_exhaustive_strings");
+                }
+            }
+            for cap in [8usize, 32, 64] {
+                for s in structured(cap, true) {
+                    lib_check_cap(m, cap, &s, true);
+                    m.count("lib_structured_strings");
+                }
+            }
+        }
+        for i in 0..lib_random {
+            let cap = [8usize, 32, 64, 32, 64][(i % 5) as usize];
+            let len = pick_len(&mut rng, cap);
+            let s = random_name(&mut rng, len, 4);
+            lib_check_cap(m, cap, &s, false);
+        }
+        m.add("lib_random_strings", lib_random);
+        // ---------------- (b)
+        let b = match guard(bases) {
+            Ok(b) => b,
+            Err(e) => {
+                m.inconclusive(&format!("bootstrap failed: {e}"));
+                return;
+            }
+        };
+        let with_structured = shard % 8 == 0;
+        for (i, name) in instruction_names(32, &mut rng, ix_random, with_structured).iter().enumerate() {
+            role_case(m, &b, name);
+            token_case(m, &b, name, i % 2 == 0, i as u64);
+            executor_case(m, &b, name);
+            if i % 4 == 0 || with_structured {
+                store_case(m, &b, name);
+            }
+        }
+        for (i, name) in instruction_names(64, &mut rng, ix_random, with_structured).iter().enumerate() {
+            market_case(m, &b, name, i % 3 == 0);
+        }
+    });
+    drop(quiet);
+    for c in [
+        "enable_role_accepted", "enable_role_rejected", "enable_role_role_usable", "initialize_market_accepted", "initialize_market_rejected",
+        "push_to_token_map_accepted", "push_to_token_map_synthetic_accepted", "push_to_token_map_rejected", "initialize_executor_accepted",
+        "initialize_executor_rejected", "Store::init_accepted", "RoleMetadata::new_accepted", "Market::init_accepted", "initialize_rejected",
+    ] {
+        mon.require(c, 20);
+    }
+    mon.require("initialize_accepted", 2);
+    mon.require("lib_cap32_accepted", 10_000);
+    mon.require("lib_cap64_accepted", 10_000);
+    mon.require("lib_cap32_rejected", 1_000);
+    mon.require("lib_cap64_rejected", 1_000);
+    mon.require("lib_exhaustive_strings", 1_000);
+    mon.require("lib_structured_strings", 1_000);
+    Some(mon.finish())
 }
